@@ -1013,6 +1013,13 @@ class Interp:
             return f32_round(r) if tt['bits'] == 32 else r
         if kind == 'FloatToInt':
             if type(v) is SymF:
+                if v.frac == 0 and tt['bits'] >= 64:
+                    # an integer-valued float below 2**53: the conversion is exact (saturation cannot apply
+                    # above; below zero only for unsigned targets)
+                    r = sx.ToInt(v.r)
+                    if tt['signed'] or self.ctx.implied(v.r >= 0):
+                        return r
+                    return sx.If(v.r >= 0, r, 0)
                 v = self.symf_concretize(v)
             if v != v:
                 return 0
